@@ -249,6 +249,12 @@ class Verifier(Engine):
                 return VInt(len(a.items))
             if isinstance(a, VPy):
                 return VInt(len(a.obj))
+            if isinstance(a, VMap):
+                # the number of entries: an uninterpreted function of the key set (equal key sets, equal sizes; >= 0)
+                row = st._marr(a.t, 'has', a.kk)[2]
+                n = z3.Function('$msize' + ('S' if a.kk == 'str' else 'R'), row.sort(), I)(row)
+                st.pc.append(n >= 0)
+                return VInt(n)
             raise OutOfSubset('len of %s' % kind_of(a))
         if name == 'isinstance':
             return VBool(self.isinstance_(st, args[0], args[1]))
